@@ -138,6 +138,10 @@ impl TlsClientConfig {
             .as_ref()
             .map(load_certs)
             .unwrap_or_else(|| Ok(vec![]))?;
+        if self.ca.is_some() && certs.is_empty() {
+            // a configured ca that holds no certificate must not silently turn into "trust the public roots"
+            return Err(err_msg("no certificate found in the configured ca file"));
+        }
         if certs.is_empty() {
             ret.add_server_trust_anchors(webpki_roots::TLS_SERVER_ROOTS.0.iter().map(|ta| {
                 OwnedTrustAnchor::from_subject_spki_name_constraints(
